@@ -42,6 +42,7 @@ class Builder:
         self.fb = dast.factors_by_id(ast)
         self.fobj = {}
         self.cobj = {}
+        self.bobj = {}       # block AST nodes that carry a "bid" map to one Python block object per pool (shared operands)
         self.enum_spelling = enum_spelling
         self.continuous_env = continuous_env   # see sim.contin
 
@@ -132,6 +133,14 @@ class Builder:
         return ALIGNS[a] if self.enum_spelling else a
 
     def block(self, b):
+        bid = b.get("bid")
+        if bid is not None:
+            if bid not in self.bobj:
+                self.bobj[bid] = self._block(b)
+            return self.bobj[bid]
+        return self._block(b)
+
+    def _block(self, b):
         k = b["kind"]
         cs = [self.constraint(c) for c in b.get("constraints", [])]
         if k == "cross":
